@@ -2,6 +2,7 @@ package props
 
 import (
 	"crypto"
+	"crypto/ecdsa"
 	"crypto/sha256"
 	"errors"
 	"fmt"
@@ -460,9 +461,30 @@ func checkC20Entropy(c c20EntropyCase) error {
 	var err error
 	alg := cose.Algorithm(c.Key.Alg)
 	stubErr := errors.New("injected crypto.Signer failure")
+	real := c.Signer == "builtin" || c.Signer == "opaque-trailing-der" || c.Signer == "cose-key-inconsistent-pair"
 	switch c.Signer {
 	case "builtin":
 		sg, err = libSigner(c.Key, false)
+	case "opaque-trailing-der":
+		// an opaque crypto.Signer (PKCS#11 style) whose ASN.1 output is followed by padding bytes
+		sg, err = cose.NewSigner(alg, trailingDERSigner{c.Key.Private().(*ecdsa.PrivateKey)})
+	case "cose-key-inconsistent-pair":
+		// a COSE_Key whose d belongs to another key than its x / y (nothing validates the pair):
+		// its signer signs with d, so the signature verifies under d's public key
+		priv := c.Key.Private().(*ecdsa.PrivateKey)
+		otherKM := c.Key
+		otherKM.D = append(append(rc.Hex{}, c.Key.D...), 'x')
+		other := otherKM.Private().(*ecdsa.PrivateKey)
+		size := (priv.Curve.Params().BitSize + 7) / 8
+		x, y, d := make([]byte, size), make([]byte, size), make([]byte, size)
+		other.X.FillBytes(x)
+		other.Y.FillBytes(y)
+		priv.D.FillBytes(d)
+		var k *cose.Key
+		k, err = cose.NewKeyEC2(alg, x, y, d)
+		if err == nil {
+			sg, err = k.Signer()
+		}
 	default:
 		mode := c.Signer
 		priv := c.Key.Private()
@@ -500,9 +522,13 @@ func checkC20Entropy(c c20EntropyCase) error {
 					return finding("signer-error-lost", "%s: %v", desc, err)
 				}
 			}
+			if real && c.Limit >= 1<<20 && errors.Is(err, cose.ErrEmptySignature) {
+				// nothing failed visibly, yet no signature was made: the failure of the key was swallowed
+				return finding("signer-error-lost", "%s: a built-in signer with a working key and entropy source produced no signature and reported no error of its own (the helper says: %v)", desc, err)
+			}
 			break
 		}
-		if c.Signer != "builtin" {
+		if !real {
 			if c.Signer == "stub-empty" || c.Key.Family() == "ec" {
 				return finding("helper-returned-message", "%s: Sign1 returned a message although the key returned no usable signature: %x", desc, out)
 			}
@@ -536,7 +562,7 @@ func checkC20Entropy(c c20EntropyCase) error {
 			}
 			break
 		}
-		if c.Signer != "builtin" {
+		if !real {
 			if eerr == nil {
 				return finding("encodes-half-signed", "%s: Sign succeeded with a failing key and the message is encodable: %x", desc, b)
 			}
@@ -566,7 +592,10 @@ func checkC20Entropy(c c20EntropyCase) error {
 		if c.Signer == "stub-error" || c.Signer == "stub-partial" {
 			return finding("signer-error-lost", "%s: Countersign0 succeeded although the crypto.Signer failed", desc)
 		}
-		if c.Signer == "builtin" {
+		if real {
+			if len(sig) == 0 {
+				return finding("empty-signature-without-error", "%s: Countersign0 returned no signature and no error", desc)
+			}
 			if err := cose.VerifyCountersign0(ver, parent, nil, sig); err != nil {
 				return finding("unusable-signature", "%s: %v", desc, err)
 			}
@@ -617,7 +646,10 @@ func TestC20_Entropy(t *testing.T) {
 					}
 				}
 			}
-			for _, sgn := range []string{"stub-error", "stub-partial", "stub-empty"} {
+			for _, sgn := range []string{"stub-error", "stub-partial", "stub-empty", "opaque-trailing-der", "cose-key-inconsistent-pair"} {
+				if km.Family() != "ec" && (sgn == "opaque-trailing-der" || sgn == "cose-key-inconsistent-pair") {
+					continue
+				}
 				n++
 				if n%nsh != sh {
 					continue
